@@ -105,7 +105,7 @@ def run(ck):
                                 bump("gen_words_diff_in_known_class_F3"); ck.known(findings["F3"], src.replace("\n", " ")[:140]); break
                             viol.append(("flat state words differ between VM and WASM at sample %d" % t, src, {"vm": x['words'], "wasm": y['words']})); break
         else:
-            hit = [c for c in ("F3", "F13") if c in cls and c in findings]
+            hit = [c for c in ("F3",) if c in cls and c in findings]
             if hit:
                 bump("gen_diff_in_known_class_" + hit[0]); ck.known(findings[hit[0]], src.replace("\n", " ")[:140])
             else:
